@@ -160,6 +160,9 @@ impl Builder {
         if self.r.chance(0.5) {
             self.sc.net.split_read_prob = *self.r.pick(&[0.01, 0.05, 0.3]);
         }
+        if self.r.chance(0.5) {
+            self.sc.net.pending_read_prob = *self.r.pick(&[0.02, 0.1, 0.3]);
+        }
     }
 
     pub fn mute(&mut self, density: f64, len_factor: (f64, f64), partial: f64, max_round: u64) {
